@@ -820,6 +820,9 @@ class XEvaluator(Evaluator):
                 v = self.invoke(self.methods[(cm._cls, "__enter__")], [cm], {})
                 ex = self.methods.get((cm._cls, "__exit__"))
                 exits.append((lambda cm=cm, ex=ex: self.invoke(ex, [cm, None, None, None], {})) if ex is not None else None)
+            elif isinstance(cm, (list, tuple)):
+                v = cm                                   # os.scandir(...) and friends: the listing itself
+                exits.append(None)
             else:
                 raise Unsupported("with statement on an unmodelled context manager")
             if item.optional_vars is not None:
